@@ -2,13 +2,15 @@
    The full statement (C02_statement) is kept as a definition; proved here: the algebraic core
    (encoder idempotence for the six sets the parser re-applies to its own output, no ignorable
    characters in encoded text, trimming is the identity on canonical text), the complete round trip
-   L1 + L3 for the class of opaque-path URLs parsed without a base, and by computation that every
+   L1 + L3 for the classes of URLs parsed without a base with an opaque path, with a non-special scheme
+   (with or without authority) and with a special non-file scheme, and by computation that every
    excluded class contains a history that is not a fixpoint. *)
 From Coq Require Import String.
 From RU Require Import Base.Prelude Base.Utf8 Base.Utf8Facts Model.AsciiSet Gen.Tables
   Model.PercentEncoding Model.HostT Model.UrlRecord Model.Parser Model.Setters Model.WF
   Proofs.ListN Proofs.C14_Enc Proofs.C02_Enc Proofs.C02_Parts Proofs.C02_Opaque Proofs.C02_Path Proofs.C02_PathL1
-  Proofs.C02_Reach.
+  Proofs.C02_Reach Proofs.C02_AuthParts Proofs.C02_Auth Proofs.C02_AuthWf Proofs.C02_PathSp Proofs.C02_AuthSp
+  Proofs.C02_AuthMain.
 Open Scope string_scope.
 Open Scope N_scope.
 Open Scope list_scope.
@@ -263,12 +265,163 @@ Example C02_noauth_inhabited :
   /\ match toy_parse "a:/..//x" with POk u => list_eqb (ser u) (B "a:/.//x") && (path_start u =? 4) | _ => false end = true.
 Proof. vm_compute. repeat split. Qed.
 
-(* what is NOT proved for classes (iii)-(v) and for joins / setters *)
+(* what is NOT proved in full: class (v) (file), joins (base <> None), setters, an encoding override
+   for special schemes; classes (iii) and (iv) are sections G and H below (under one more hypothesis on
+   the host display, host_above) *)
 Definition C02_L3_remaining_statement : Prop :=
   forall dbg hp hpo hd, HostOK hp hpo hd -> forall ovr base input u,
     usv_list input -> (match base with Some b => Reachable dbg hp hpo hd b | None => True end) ->
     parse_url dbg hp hpo hd ovr base input = POk u -> Known_file_drive u = false ->
     Fixpoint_of_reparse dbg hp hpo hd u.
+
+(* ---------- G. class (iii): non-special scheme, authority ("sch://..."), parsed without a base ---------- *)
+(* Hypotheses on the host functions: HostRT = the four clauses of HostOK that concern parsing (both
+   parsers are inverted by the display, the display of a parsed host is a host text, the empty host is
+   displayed as nothing and the empty text is the empty opaque host) - HostOK implies it - and
+   host_above = every displayed host is above U+0020 (HostOK does not say so; without it a display that
+   ends in a space would be trimmed away by the re-parse: a gap of the hypothesis, not of the code).
+   auth_input: decided on the input - scheme ':' '/' '/' with a non-special scheme.
+   canon_auth .. STNotSpecial u: u is  scheme "://" [user [":" pw] "@"] host [":" port] path ["?" q] ["#" f],
+   offsets = sums of the component lengths, host kind = kind of the host value (C02_AuthMain.v). *)
+Theorem C02_L1_auth : forall dbg hp hpo hd, HostRT hp hpo hd -> forall ovr input u,
+  host_above hp hpo hd -> usv_list input -> auth_input input = true ->
+  parse_url dbg hp hpo hd ovr None input = POk u ->
+  canon_auth hp hpo hd STNotSpecial u /\ wf_b u = true /\ ascii (ser u) /\ cannot_be_a_base u = Some false.
+Proof. exact L1_auth. Qed.
+Check C02_L1_auth : forall dbg hp hpo hd, HostRT hp hpo hd -> forall ovr input u,
+  host_above hp hpo hd -> usv_list input -> auth_input input = true ->
+  parse_url dbg hp hpo hd ovr None input = POk u ->
+  canon_auth hp hpo hd STNotSpecial u /\ wf_b u = true /\ ascii (ser u) /\ cannot_be_a_base u = Some false.
+Print Assumptions C02_L1_auth.
+
+(* L3: every canonical record of the class is a fixpoint (same serialization, offsets, host kind, port) *)
+Theorem C02_L3_auth : forall dbg hp hpo hd, HostRT hp hpo hd -> forall u,
+  canon_auth hp hpo hd STNotSpecial u -> Fixpoint_of_reparse dbg hp hpo hd u.
+Proof. exact L3_auth. Qed.
+Check C02_L3_auth : forall dbg hp hpo hd, HostRT hp hpo hd -> forall u,
+  canon_auth hp hpo hd STNotSpecial u -> parse_url dbg hp hpo hd None None (utf8_lossy (ser u)) = POk u.
+Print Assumptions C02_L3_auth.
+
+(* L1 + L3 under HostOK *)
+Theorem C02_reparse_auth : forall dbg hp hpo hd ovr input u,
+  HostOK hp hpo hd -> host_above hp hpo hd -> usv_list input -> auth_input input = true ->
+  parse_url dbg hp hpo hd ovr None input = POk u ->
+  Fixpoint_of_reparse dbg hp hpo hd u /\ wf_b u = true /\ canon_auth hp hpo hd STNotSpecial u.
+Proof. exact reparse_auth_HostOK. Qed.
+Check C02_reparse_auth : forall dbg hp hpo hd ovr input u,
+  HostOK hp hpo hd -> host_above hp hpo hd -> usv_list input -> auth_input input = true ->
+  parse_url dbg hp hpo hd ovr None input = POk u ->
+  parse_url dbg hp hpo hd None None (utf8_lossy (ser u)) = POk u /\ wf_b u = true /\ canon_auth hp hpo hd STNotSpecial u.
+Print Assumptions C02_reparse_auth.
+
+(* the canonical record itself: wf_b, for both scheme types *)
+Theorem C02_canon_auth_wf : forall hp hpo hd, HostRT hp hpo hd -> forall st sch ui h pt p q f,
+  auth_ok hp hpo hd st sch ui h pt p q f ->
+  wf_b (auth_url hd sch ui h pt p q f) = true /\ cannot_be_a_base (auth_url hd sch ui h pt p q f) = Some false.
+Proof. exact auth_url_wf. Qed.
+Print Assumptions C02_canon_auth_wf.
+
+(* the authority states are the identity on canonical text: reusable for joins and setters *)
+Theorem C02_userinfo_state_identity : forall st ser ui X, ui_ok ui ->
+  (forall count last, scan_last_at (st_is_special st) X count last = last) ->
+  nlen ser + ui_ulen ui <= U32_MAX_P ->
+  parse_userinfo st ser (ui_text ui ++ X) = POk (ser ++ ui_text ui, nlen ser + ui_ulen ui, X).
+Proof. exact parse_userinfo_canon. Qed.
+Print Assumptions C02_userinfo_state_identity.
+
+Theorem C02_port_state_identity : forall dflt p X, p <= 65535 -> dflt <> Some p -> pe_ok X ->
+  parse_port CUrlParser dflt (decimal p ++ X) = POk (Some p, X).
+Proof. exact parse_port_canon. Qed.
+Print Assumptions C02_port_state_identity.
+
+(* non-vacuity: the host hypotheses have an instance (texts over letters, digits, '-', '.'), and with it
+   "a://u:p@h.x:81/a/../b?q#f" -> "a://u:p@h.x:81/b?q#f" (offsets 1 5 8 11 14, port 81), "a:///p" (empty
+   host), "a://@h" -> "a://h", "a://h:/" -> "a://h/" are in the class, parse, and re-parse to themselves *)
+Example C02_host_hypotheses_inhabited : HostRT ex_hp ex_hp ex_hd /\ host_above ex_hp ex_hp ex_hd.
+Proof. exact ex_host_RT. Qed.
+
+Example C02_auth_inhabited :
+  auth_input (B "a://u:p@h.x:81/a/../b?q#f") = true /\ auth_input (B "a:///p") = true
+  /\ auth_input (B "a://@h") = true /\ auth_input (B "a:/p") = false /\ auth_input (B "http://h") = false
+  /\ ex_result "a://u:p@h.x:81/a/../b?q#f" "a://u:p@h.x:81/b?q#f" 1 5 8 11 14 (Some 81) = true
+  /\ ex_result "a:///p" "a:///p" 1 4 4 4 4 None = true
+  /\ ex_result "a://@h" "a://h" 1 4 4 5 5 None = true
+  /\ ex_result "a://h:/" "a://h/" 1 4 4 5 5 None = true.
+Proof. exact auth_examples. Qed.
+
+(* ---------- H. class (iv): special non-file scheme (http, https, ws, wss, ftp), parsed without a base ---------- *)
+(* special_input: decided on the input - the scheme is one of the five (any number of '/' and '\' may
+   follow the colon).  canon_special: as canon_auth for the type STSpecialNotFile (host parsed by
+   Host::parse and never empty, port never the default of the scheme, query clean for SPECIAL_QUERY) and
+   the path is "/" seg "/" ... "/" last with no '\' in any segment.  The first parse is taken without an
+   encoding override (ovr = None); with an override the query bytes come from the caller's encoder. *)
+Theorem C02_L1_special : forall dbg hp hpo hd, HostRT hp hpo hd -> forall input u,
+  host_above hp hpo hd -> usv_list input -> special_input input = true ->
+  parse_url dbg hp hpo hd None None input = POk u ->
+  canon_special hp hpo hd u /\ wf_b u = true /\ ascii (ser u) /\ cannot_be_a_base u = Some false.
+Proof. exact L1_special. Qed.
+Check C02_L1_special : forall dbg hp hpo hd, HostRT hp hpo hd -> forall input u,
+  host_above hp hpo hd -> usv_list input -> special_input input = true ->
+  parse_url dbg hp hpo hd None None input = POk u ->
+  canon_special hp hpo hd u /\ wf_b u = true /\ ascii (ser u) /\ cannot_be_a_base u = Some false.
+Print Assumptions C02_L1_special.
+
+Theorem C02_L3_special : forall dbg hp hpo hd, HostRT hp hpo hd -> forall u,
+  canon_special hp hpo hd u -> Fixpoint_of_reparse dbg hp hpo hd u.
+Proof. exact L3_special. Qed.
+Check C02_L3_special : forall dbg hp hpo hd, HostRT hp hpo hd -> forall u,
+  canon_special hp hpo hd u -> parse_url dbg hp hpo hd None None (utf8_lossy (ser u)) = POk u.
+Print Assumptions C02_L3_special.
+
+Theorem C02_reparse_special : forall dbg hp hpo hd input u,
+  HostOK hp hpo hd -> host_above hp hpo hd -> usv_list input -> special_input input = true ->
+  parse_url dbg hp hpo hd None None input = POk u ->
+  Fixpoint_of_reparse dbg hp hpo hd u /\ wf_b u = true /\ canon_special hp hpo hd u.
+Proof. exact reparse_special_HostOK. Qed.
+Check C02_reparse_special : forall dbg hp hpo hd input u,
+  HostOK hp hpo hd -> host_above hp hpo hd -> usv_list input -> special_input input = true ->
+  parse_url dbg hp hpo hd None None input = POk u ->
+  parse_url dbg hp hpo hd None None (utf8_lossy (ser u)) = POk u /\ wf_b u = true /\ canon_special hp hpo hd u.
+Print Assumptions C02_reparse_special.
+
+(* the path state of a special scheme is the identity on canonical text *)
+Theorem C02_path_state_identity_special : forall dbg ps segs last rest ser hh,
+  forallb good_seg_sp segs = true -> good_seg_sp last = true ->
+  match rest with [] => True | c :: _ => is_qh c = true /\ is_tnl c = false end ->
+  parse_path_loop dbg CUrlParser STSpecialNotFile ps (segs_text segs ++ last ++ rest) ser (nlen ser) [] hh
+  = POk (ser ++ segs_text segs ++ last, hh, rest).
+Proof. exact path_loop_canon_sp. Qed.
+Print Assumptions C02_path_state_identity_special.
+
+(* non-vacuity: "HTTP:\\u@H.x:80\a\..\b?q'#f" -> "http://u@H.x/b?q%27#f" (default port elided, '\' read as
+   '/', offsets 4 8 9 12 12), "ws:h" -> "ws://h/", "https://h:8443/%2e/x\" -> "https://h:8443/x/"; "http://"
+   is rejected (EmptyHost) *)
+Example C02_special_inhabited :
+  special_input (B "HTTP:\\u@H.x:80\a\..\b?q'#f") = true /\ special_input (B "ws:h") = true
+  /\ special_input (B "file://h/") = false /\ special_input (B "a://h") = false
+  /\ ex_result "HTTP:\\u@H.x:80\a\..\b?q'#f" "http://u@H.x/b?q%27#f" 4 8 9 12 12 None = true
+  /\ ex_result "ws:h" "ws://h/" 2 5 5 6 6 None = true
+  /\ ex_result "https://h:8443/%2e/x\" "https://h:8443/x/" 5 8 8 9 14 (Some 8443) = true
+  /\ match ex_parse "http://" with PErr EmptyHost => true | _ => false end = true.
+Proof. exact special_examples. Qed.
+
+(* ---------- I. the union of classes (i)-(iv): every URL parsed without a base whose scheme is not file ---------- *)
+(* nonfile_input: decided on the input - it has a scheme and the scheme is not "file" (no encoding override) *)
+Theorem C02_reparse_nonfile : forall dbg hp hpo hd input u,
+  HostOK hp hpo hd -> host_above hp hpo hd -> usv_list input -> nonfile_input input = true ->
+  parse_url dbg hp hpo hd None None input = POk u ->
+  Fixpoint_of_reparse dbg hp hpo hd u /\ wf_b u = true /\ ascii (ser u).
+Proof. exact reparse_nonfile_HostOK. Qed.
+Check C02_reparse_nonfile : forall dbg hp hpo hd input u,
+  HostOK hp hpo hd -> host_above hp hpo hd -> usv_list input -> nonfile_input input = true ->
+  parse_url dbg hp hpo hd None None input = POk u ->
+  parse_url dbg hp hpo hd None None (utf8_lossy (ser u)) = POk u /\ wf_b u = true /\ ascii (ser u).
+Print Assumptions C02_reparse_nonfile.
+
+Example C02_nonfile_inhabited :
+  nonfile_input (B "about:blank") = true /\ nonfile_input (B "a:/x/../y") = true /\ nonfile_input (B "a://u@h:1/") = true
+  /\ nonfile_input (B "HTTPS:\h") = true /\ nonfile_input (B "file:///x") = false /\ nonfile_input (B "/relative") = false.
+Proof. exact nonfile_examples. Qed.
 
 (* ---------- F. every excluded class contains a history that is not a fixpoint ---------- *)
 Theorem C02_F_C03_5_refuted :
